@@ -59,6 +59,7 @@ def parseOp : List String → Option Op
   | ["read", i] => i.toNat?.map .read
   | ["mod", i, v] => do pure (.modify (← i.toNat?) (← v.toNat?))
   | ["link", i, j] => do pure (.link (← i.toNat?) (← j.toNat?))
+  | ["wlink", i, j] => do pure (.link (← i.toNat?) (← j.toNat?))   -- through a WeakRef: same bookkeeping
   | ["unlink", i, j] => do pure (.unlink (← i.toNat?) (← j.toNat?))
   | ["add", i] => i.toNat?.map .add
   | ["commit"] => some (.commit .none)
